@@ -12,7 +12,8 @@ From Coq Require Import List ZArith NArith Bool Lia.
 From Tink Require Import Bytes Wrap MldsaScalar MldsaScalarProofs MldsaScalarProofs2 MldsaTableProofs
   MldsaKernels MldsaKernelsProofs MldsaPoly Mldsa
   MldsaPackProofs MldsaHintProofs MldsaUseHintProofs MldsaLowBitsProofs MldsaNttProofs MldsaAlgebraProofs
-  MldsaProofs MldsaExamples.
+  MldsaProofs MldsaExamples
+  MldsaConvProofs MldsaNormProofs MldsaSampleProofs MldsaSignVerifyProofs MldsaKeyCodecProofs MldsaSignVerifyExamples.
 Import ListNotations.
 Local Open Scope Z_scope.
 
@@ -156,9 +157,11 @@ Theorem C10_ntt_subtractive : forall a b, length a = 256%nat -> length b = 256%n
 Proof. intros a b La Lb Ca Cb. exact (conj (ntt_sub a b La Lb Ca Cb) (intt_sub a b La Lb Ca Cb)). Qed.
 Print Assumptions C10_ntt_subtractive.
 
-(* Towards "every produced signature verifies" (FULL STATEMENT, not proved:
+(* Towards "every produced signature verifies" (the FULL STATEMENT
      keyGenInternal seed = Some (pk, sk) -> signInternalWithMu fuel sk mu rnd = Some sigma ->
-     verifyInternalWithMu pk mu sigma = Some true).
+     verifyInternalWithMu pk mu sigma = Some true
+   is proved in section 8 below, C10_sign_then_verify; this theorem is its
+   algebraic core and is kept under its old name).
    Proved here: the algebraic identity verification rests on, with every
    product computed as the code does (ntt, pointwise product, intt): for
    t = A*s1 + s2, (t1, t0) = Power2Round(t), z = y + c*s1, the verifier's
@@ -166,10 +169,10 @@ Print Assumptions C10_ntt_subtractive.
    Together with C10_useHint_makeHint (w1' = HighBits(w - c*s2) since
    ||c*t0|| < gamma2) and C10_highBits_stable (HighBits(w - c*s2) =
    HighBits(w) since ||r0|| < gamma2 - beta) this is the whole argument.
-   MISSING for the full statement: ||c*s2||_inf <= beta for the product as
-   computed through the NTT (needs: pointwise multiplication in the NTT
-   domain is negacyclic convolution), and the assembly of the codec round
-   trip and norm conditions of signAttempt. *)
+   What this theorem alone does not give (and section 8 adds): ||c*s2||_inf
+   <= beta for the product as computed through the NTT (pointwise
+   multiplication in the NTT domain is negacyclic convolution), and the
+   assembly of the codec round trip and norm conditions of signAttempt. *)
 Theorem C10_sign_then_verify_algebra_partial : forall k l Ah s1 s2 y c,
   cmat k l Ah -> cvec l s1 -> cvec k s2 -> cvec l y -> cpoly c ->
   let s1h := vntt s1 in let s2h := vntt s2 in
@@ -306,3 +309,113 @@ Example C10_sigDecode_sigEncode_inhabited :
   p_omega P <= 255 /\ (0 <= gamma1 P < q)%Z /\ length c = ctLen P /\ polys (p_l P) z /\
   length h = p_k P /\ weight h <= p_omega P /\ sigDecode P (sigEncode P c z h) = Some (c, z, h).
 Proof. exact ex_sigDecode_sigEncode_inhabited. Qed.
+
+(* ------------------------------------------------------------------ *)
+(* 8. every signature the signing function produces is accepted by the  *)
+(*    verification function                                             *)
+(* ------------------------------------------------------------------ *)
+Local Open Scope Z_scope.
+
+(* MultiplyNTT is multiplication in Z_q[X]/(X^256+1): the product computed
+   as the code does (ntt, pointwise k_mul, intt) is conv a b =
+   sum_i a_i * X^i * b with X*p the negacyclic shift (MldsaConvProofs.conv),
+   whose k-th coefficient is the negacyclic convolution
+      sum_{i<=k} a_i b_{k-i} - sum_{i>k} a_i b_{256+k-i}   (mod q)
+   (csum a 0 b k is that sum over the coefficients of a), and it satisfies
+   || a*b ||_inf <= || a ||_1 * || b ||_inf in centred representatives
+   (cabs x = |x mod+- q|, l1 = sum of cabs, bounded B p = all cabs <= B). *)
+Theorem C10_ntt_mul_is_negacyclic_convolution : forall a b, cpoly a -> cpoly b ->
+  intt (pmul (ntt a) (ntt b)) = conv a b /\
+  (forall k, (k < 256)%nat -> List.nth k (conv a b) 0 = (csum a 0 b k) mod q) /\
+  (forall B, 0 <= B -> bounded B b -> bounded (l1 a * B) (intt (pmul (ntt a) (ntt b)))).
+Proof.
+  intros a b Ha Hb. split; [apply ntt_mul_is_negacyclic_convolution; auto|]. split.
+  - intros k Hk. destruct Ha as [La Ca]. apply conv_coeff; auto. lia.
+  - intros B HB Bb. rewrite ntt_mul_is_negacyclic_convolution by auto. apply conv_norm_bound; auto. apply Ha.
+Qed.
+Print Assumptions C10_ntt_mul_is_negacyclic_convolution.
+
+(* ||c*s||_inf <= tau*eta = beta for the vectors c*s1, c*s2 as signing
+   computes them, and the meaning of infinityNorm: every coefficient of every
+   polynomial of v has |x mod+- q| <= v.infinityNorm() *)
+Theorem C10_c_times_s2_norm_bound :
+  (forall n c v eta tau, cpoly c -> cvec n v -> 0 <= eta -> Forall (bounded eta) v -> l1 c <= tau ->
+     Forall (bounded (tau * eta)) (vintt (vscalarMul (ntt c) (vntt v)))) /\
+  (forall v, Forall canon v -> Forall (bounded (vinfNorm v)) v /\ 0 <= vinfNorm v).
+Proof. exact (conj c_times_s2_norm_bound vinfNorm_bounds). Qed.
+Print Assumptions C10_c_times_s2_norm_bound.
+
+(* ranges of the samplers, for EVERY XOF output: RejectNTTPoly gives 256
+   coefficients of Z_q; RejectBoundedPoly 256 coefficients with |c| <= eta;
+   SampleInBall a polynomial with ||c||_1 <= tau *)
+Theorem C10_sampler_ranges : forall (shake : bytes -> nat -> bytes),
+  (forall rho p, rejectNTTPoly shake rho = Some p -> cpoly p) /\
+  (forall eta rho p, eta = 2 \/ eta = 4 -> rejectBoundedPoly shake eta rho = Some p -> cpoly p /\ bounded eta p) /\
+  (forall tau rho c, (tau <= 256)%nat -> sampleInBall shake tau rho = Some c -> cpoly c /\ l1 c <= Z.of_nat tau).
+Proof.
+  intros shake. exact (conj (rejectNTT_cpoly shake) (conj (rejectBounded_props shake) (sampleInBall_props shake))).
+Qed.
+Print Assumptions C10_sampler_ranges.
+
+(* THE STATEMENT.  For each of ML-DSA-44/65/87, every seed, message, context,
+   randomness and fuel: if key generation returns (pk, sk) and signing with
+   sk returns a signature (the rejection loop ended within the fuel and no
+   XOF stream ran out), verification with pk accepts it — at the three
+   layers of mldsa.go: with an external mu, on a formatted message M', and
+   Sign/Verify with a context.  SHAKE128/SHAKE256 are arbitrary functions;
+   the only law used is that SHAKE256 returns the requested number of bytes. *)
+Theorem C10_sign_then_verify : forall (shake128 shake256 : bytes -> nat -> bytes) P seed pk sk fuel,
+  (forall m n, length (shake256 m n) = n) ->
+  P = MLDSA44 \/ P = MLDSA65 \/ P = MLDSA87 ->
+  keyGenInternal shake128 shake256 P seed = Some (pk, sk) ->
+  (forall mu rnd sigma,
+     signInternalWithMu shake128 shake256 P fuel sk mu rnd = Some sigma ->
+     verifyInternalWithMu shake128 shake256 P pk mu sigma = Some true) /\
+  (forall Mp rnd sigma,
+     signInternal shake128 shake256 P fuel sk Mp rnd = Some sigma ->
+     verifyInternal shake128 shake256 P pk Mp sigma = Some true) /\
+  (forall M ctx rnd sigma,
+     sign shake128 shake256 P fuel sk M ctx rnd = Some (Some sigma) ->
+     verify shake128 shake256 P pk M sigma ctx = Some true).
+Proof.
+  intros shake128 shake256 P seed pk sk fuel HL HP HK. pose proof (params_ok_facts P HP) as PF.
+  split; [|split]; intros.
+  - eapply keygen_sign_verify_mu; eauto.
+  - eapply keygen_sign_verify_internal; eauto.
+  - eapply keygen_sign_verify; eauto.
+Qed.
+Print Assumptions C10_sign_then_verify.
+
+(* The same for the Tink layer, which holds the ENCODED keys: generated keys
+   survive pkEncode/pkDecode and skEncode/skDecode, and a signature produced
+   by the Tink signer (output prefix + signInternal over the decoded secret
+   key, empty context) is accepted by the Tink verifier over the encoded
+   public key. *)
+Theorem C10_tink_sign_then_verify : forall (shake128 shake256 : bytes -> nat -> bytes) P seed pk sk,
+  (forall m n, length (shake256 m n) = n) ->
+  P = MLDSA44 \/ P = MLDSA65 \/ P = MLDSA87 ->
+  keyGenInternal shake128 shake256 P seed = Some (pk, sk) ->
+  (pkDecode shake256 P (pkEncode pk) = Some pk /\ skDecode P (skEncode P sk) = Some sk) /\
+  (forall fuel prefix data rnd s,
+     tinkSign shake128 shake256 P fuel prefix (skEncode P sk) data rnd = Some s ->
+     tinkVerify shake128 shake256 P prefix (pkEncode pk) s data = Some true).
+Proof.
+  intros shake128 shake256 P seed pk sk HL HP HK. split.
+  - eapply keyGen_codec; eauto.
+  - intros. eapply tink_sign_verify; eauto.
+Qed.
+Print Assumptions C10_tink_sign_then_verify.
+
+(* the premises are inhabited: a toy XOF with the length law under which
+   ML-DSA-44 key generation and (first-round) signing succeed *)
+Example C10_sign_then_verify_inhabited :
+  (forall m n, length (ex_shake256 m n) = n) /\ (MLDSA44 = MLDSA44 \/ MLDSA44 = MLDSA65 \/ MLDSA44 = MLDSA87) /\
+  match keyGenInternal ex_shake128 ex_shake256 MLDSA44 [] with
+  | Some (pk, sk) =>
+      match sign ex_shake128 ex_shake256 MLDSA44 1 sk [] [] [] with
+      | Some (Some s) => length s = 2420%nat
+      | _ => False
+      end
+  | None => False
+  end.
+Proof. exact ex_sign_then_verify_inhabited. Qed.
